@@ -175,28 +175,28 @@ structure AnyM (α : Type) : Type 1 where
   /-- the abstract counters this stage holds (`[]` for operators that are not instrumentation) -/
   tally : σ → List Nat := fun _ => []
   /-- (ghost, specification) what those counters have to be, as a function of the notifications
-      the stage's gate has let through; `[]` for operators that are not instrumentation -/
-  spec : List (Notif α) → List Nat := fun _ => []
+      the stage's gate has let through and of the number of times its subscribe function has run;
+      `[]` for operators that are not instrumentation -/
+  spec : List (Notif α) → Nat → List Nat := fun _ _ => []
 
 /-- a user operator -/
 def AnyM.of {σ : Type} (m : Machine σ α α) : AnyM α := { σ := σ, m := m }
 
 /-- `observeBeforePipe`: [notifications-in, lag observations] -/
 def AnyM.before : AnyM α :=
-  { σ := Nat × Nat, m := beforeM, tally := fun s => [s.1, s.2], spec := fun l => [countNext l, countNonNilNext l] }
+  { σ := Nat × Nat, m := beforeM, tally := fun s => [s.1, s.2], spec := fun l _ => [countNext l, countNonNilNext l] }
 /-- `observeOperatorProcessingTime`: [observations] -/
 def AnyM.proc : AnyM α :=
-  { σ := Nat, m := procM, tally := fun s => [s], spec := fun l => [countStampedNext l] }
-/-- `observeAfterPipe`: [notifications-out] (the subscription counter is `afterSubs` below) -/
+  { σ := Nat, m := procM, tally := fun s => [s], spec := fun l _ => [countStampedNext l] }
+/-- `observeAfterPipe`: [subscriptions, notifications-out] -/
 def AnyM.after : AnyM α :=
-  { σ := Nat × Nat, m := afterM, tally := fun s => [s.2], spec := fun l => [countNext l] }
-def AnyM.cntNext : AnyM α := { σ := Nat, m := cntNextM, tally := fun s => [s], spec := fun l => [countNext l] }
-def AnyM.cntError : AnyM α := { σ := Nat, m := cntErrorM, tally := fun s => [s], spec := fun l => [countError l] }
-def AnyM.cntComplete : AnyM α := { σ := Nat, m := cntCompleteM, tally := fun s => [s], spec := fun l => [countComplete l] }
-def AnyM.lag : AnyM α := { σ := Nat, m := lagM, tally := fun s => [s], spec := fun l => [countNext l] }
-/-- `IncCounterOnSubscription`: the counter is not a function of the notifications (it counts
-    runs of the subscribe function), so no `spec`; see `RoProofs.PromCounters` -/
-def AnyM.cntSub : AnyM α := { σ := Nat, m := cntSubM, tally := fun s => [s] }
+  { σ := Nat × Nat, m := afterM, tally := fun s => [s.1, s.2], spec := fun l k => [k, countNext l] }
+def AnyM.cntNext : AnyM α := { σ := Nat, m := cntNextM, tally := fun s => [s], spec := fun l _ => [countNext l] }
+def AnyM.cntError : AnyM α := { σ := Nat, m := cntErrorM, tally := fun s => [s], spec := fun l _ => [countError l] }
+def AnyM.cntComplete : AnyM α := { σ := Nat, m := cntCompleteM, tally := fun s => [s], spec := fun l _ => [countComplete l] }
+def AnyM.lag : AnyM α := { σ := Nat, m := lagM, tally := fun s => [s], spec := fun l _ => [countNext l] }
+/-- `IncCounterOnSubscription`: counts the runs of its subscribe function -/
+def AnyM.cntSub : AnyM α := { σ := Nat, m := cntSubM, tally := fun s => [s], spec := fun _ k => [k] }
 /-- a stand-alone operator with the licence off -/
 def AnyM.off : AnyM α := { σ := Unit, m := offM }
 
@@ -206,6 +206,8 @@ structure StageSt (σ α : Type) where
   st : σ
   gate : Bool := true
   seen : List (Notif α) := []
+  /-- (ghost) times the stage's subscribe function has run -/
+  subd : Nat := 0
 
 /-- the final subscriber (the one wrapping the user's observer) -/
 structure SinkSt where
@@ -248,7 +250,7 @@ def push (hot : Bool) : (ms : List (AnyM α)) → Cfg ms → Notif α → Cfg ms
     if c.1.gate then
       let r := a.m.step c.1.st n
       let d := feedAll (push hot rest) c.2 r.2
-      (({ st := r.1, gate := !n.isTerminal && !(hot && !headOpen rest d.1), seen := c.1.seen ++ [n] }, d.1), d.2)
+      (({ c.1 with st := r.1, gate := !n.isTerminal && !(hot && !headOpen rest d.1), seen := c.1.seen ++ [n] }, d.1), d.2)
     else (c, [])
 
 /-- external `Unsubscribe` on a hot subscription: every gate closes -/
@@ -280,7 +282,7 @@ def subscribePhase (sub : Ctx) : (ms : List (AnyM α)) → Cfg ms → SubPhase m
     if below.reached then
       let r := a.m.onSubscribe c.1.st sub
       let d := feedAll (push false rest) below.cfg r.2
-      { cfg := ({ c.1 with st := r.1 }, d.1), out := below.out ++ d.2, reached := a.m.subscribes }
+      { cfg := ({ c.1 with st := r.1, subd := c.1.subd + 1 }, d.1), out := below.out ++ d.2, reached := a.m.subscribes }
     else { cfg := (c.1, below.cfg), out := below.out, reached := false }
 
 /-- one subscription of a chain, played to the end -/
@@ -364,10 +366,16 @@ def tailSeen : (ms : List (AnyM α)) → Cfg (tailI ms) → List (List (Notif α
   | [], _ => []
   | _ :: ms, c => c.2.1.seen :: tailSeen ms c.2.2
 
-/-- what `afterM`'s gate let through -/
-def afterSeen : (ms : List (AnyM α)) → Cfg (tailI ms) → List (Notif α)
-  | [], c => c.1.seen
-  | _ :: ms, c => afterSeen ms c.2.2
+/-- what the gate of the last stage of a chain let through -/
+def lastSeen : (ms : List (AnyM α)) → Cfg ms → List (Notif α)
+  | [], _ => []
+  | [_], c => c.1.seen
+  | _ :: b :: rest, c => lastSeen (b :: rest) c.2
+
+/-- how often each stage's subscribe function has run -/
+def subds : (ms : List (AnyM α)) → Cfg ms → List Nat
+  | [], _ => []
+  | _ :: rest, c => c.1.subd :: subds rest c.2
 
 def Counters.add (a b : Counters) : Counters :=
   { subs := a.subs + b.subs, inN := a.inN + b.inN, outN := a.outN + b.outN, lag := a.lag + b.lag,
